@@ -12,8 +12,8 @@ import time
 from . import explore
 from .world import VERIF, HarnessError
 
-EVIDENCE_DIR = os.path.join(VERIF, "evidence")
-REPLAY_DIR = os.path.join(VERIF, "replays")
+EVIDENCE_DIR = os.environ.get("VERIF_EVIDENCE_DIR") or os.path.join(VERIF, "evidence")
+REPLAY_DIR = os.environ.get("VERIF_REPLAY_DIR") or os.path.join(VERIF, "replays")
 FINDINGS_FILE = os.path.join(VERIF, "known_findings.json")
 MAX_REPLAYS_PER_SIG = 1
 MAX_UNKNOWN_SIGS_REPORTED = 12
